@@ -124,6 +124,11 @@ def gen_c16(y0, y1):
         except Exception:
             ev["dd"] = [-2, -2, -2]
         try:
+            yy, mm, dd = Epoch.doy2date(y, n + 0.5)
+            ev["ddh"] = [_ii(yy), _ii(mm), _i2(dd)]
+        except Exception:
+            ev["ddh"] = [-2, -2, -2]
+        try:
             ev["lp"] = 1 if e0.leap() else 0
         except Exception:
             ev["lp"] = -2
